@@ -117,6 +117,8 @@ def gen_model(rng, maxv, pairs=None, version=None, canonical=False, wide=False):
                          unknown7=rng.getrandbits(16), bg_change=rng.randrange(256)), extra_strings=["unused_string"] if rng.random() < 0.3 else [])
     if wide and rng.random() < 0.3:
         m["stream_shuffle_seed"] = rng.getrandbits(30)
+    if wide and rng.random() < 0.3:
+        m["decl_junk_seed"] = rng.getrandbits(30)
     if wide:
         if rng.random() < 0.35:
             m["terrain_shadow_meshes"] = [rng.randbytes(20) for _ in range(rng.choice([0, 1, 2, 7, 255]))]
@@ -252,6 +254,8 @@ def classes_of(m):
         cl.add("terrain-shadow-submeshes")
     if m.get("stream_shuffle_seed") is not None:
         cl.add("vertex-streams:shuffled-with-gaps")
+    if m.get("decl_junk_seed") is not None:
+        cl.add("declaration:junk-behind-terminator")
     if any(len(t) > 64 for t in m.get("bone_tables", [])):
         cl.add("bone-table:>64")
     if len(m.get("bones", [])) > 64:
